@@ -385,7 +385,8 @@ Proof.
     eapply (m_exprs_T n IHe) in E2; [|cbn [esize] in Hn; fold (esizes args) in Hn; lia|assumption].
     unfold comma in E2. finish.
   - (* EMember, not computed *)
-    destruct e0_2; try discriminate. use_IH IHe IHs. cbn [write_expr]. finish.
+    destruct e0_2; try discriminate. use_IH IHe IHs. cbn [write_expr].
+    destruct (is_decimal_int e0_1); cbn [negb andb]; finish.
   - (* ECompound *)
     destruct (t_type t =? T_PLUS_ASSIGN) eqn:E3; [|destruct (t_type t =? T_MINUS_ASSIGN) eqn:E4; [|discriminate]];
       injection E as E; subst l; bsplit; finish.
